@@ -819,6 +819,26 @@ fn main() {
         ctx.end_case();
     }
 
+    // long valid UTF-8 text (multi-byte characters at every alignment) into everything: several
+    // decoders fall back to "free-form text" or parse textual forms (bech32 / base58 / hex)
+    let n_text = ctx.budget(16_000, 160_000);
+    for _ in 0..n_text {
+        let mut s = String::new();
+        for _ in 0..rng.usize_below(5) {
+            s.push((b'a' + rng.below(26) as u8) as char);
+        }
+        let target = *rng.pick(&[20usize, 200, 1000, 1030, 2050, 4100, 9000]) + rng.usize_below(40);
+        let ch = *rng.pick(&['é', '€', '😀', 'ß', '日', 'a']);
+        while s.len() < target {
+            s.push(if rng.chance(1, 30) { (b'a' + rng.below(26) as u8) as char } else { ch });
+        }
+        let input = s.into_bytes();
+        let e = &es[rng.usize_below(es.len())];
+        open_case(&mut ctx, e.name, "utf8-text", "prng", &input, 1);
+        run_case(&mut ctx, e, &input, "utf8-text", "prng");
+        ctx.end_case();
+    }
+
     if std::env::var("PV_DEBUG").is_ok() {
         eprintln!("t={:.1}s evals={} next: nesting bombs", ctx.elapsed_s(), ctx.evaluations);
     }
